@@ -239,6 +239,7 @@ def run(chk):
     ms6 = [n for n in T.walk(f6['body']) if n.get('k') == 'Match' and n.get('src') == 'Normal']
     if chk.need(ms6, 'structural_supertype_of: no match'):
         c06.quantifier_structure(chk, max(ms6, key=lambda n: len(n['arms'])), 'C33-union')
+    c06.widen_rule(chk, fx, 'C33-widen')
     return ('Dominance rule over the structured HIR of Context::get_match_call_t, and a table-agreement rule (typed HIR + python ast) over the four interval operators. '
             'Soundness of sub_unify / union for other pattern types is not decided.'), {}
     return ('Dominance rule over the structured HIR of Context::get_match_call_t. Soundness of sub_unify / union and the run-time arm tests are not decided.'), {}
